@@ -817,7 +817,7 @@ _named_number = (
     (31, r"thirtyone|einund?drei(ß|ss)ig"),
 )
 _rule_named_number = "|".join(
-    r"(?P<n_{}>{}\b)".format(n, expr) for n, expr in _named_number
+    r"(?P<n_{}>({})\b)".format(n, expr) for n, expr in _named_number
 )
 _rule_named_number = r"({})\s*".format(_rule_named_number)
 
@@ -832,7 +832,7 @@ _durations = [
 
 
 _rule_durations = r"|".join(
-    r"(?P<d_{}>{}\b)".format(dur.value, expr) for dur, expr in _durations
+    r"(?P<d_{}>({})\b)".format(dur.value, expr) for dur, expr in _durations
 )
 _rule_durations = r"({})\s*".format(_rule_durations)
 
